@@ -2,10 +2,11 @@
 # dev helper: run harnesses (substring filters) on teos with caps; usage: k1.sh <timeout_s> <jobs> <filter>...
 T=$1; J=$2; shift 2
 H=""; for f in "$@"; do H="$H --harness $f"; done
-cd /repo/${CRATE:-teos} && (ulimit -v ${MEMKB:-12000000}; env CARGO_HOME=/verif/.cache/cargo-home RUSTFLAGS="--cfg secp256k1_fuzz" timeout $((T*3+300)) cargo kani --lib --target-dir /verif/.cache/${TD:-kani-teos2} -Z stubbing -Z unstable-options -Z async-lib --output-format terse --no-assertion-reach-checks --no-memory-safety-checks -j $J $H --harness-timeout $T --export-json /verif/.cache/out/k1.json --cbmc-args --unwindset memcmp.0:66 > /verif/.cache/out/k1.log 2>&1; grep -E "^error" -A8 /verif/.cache/out/k1.log | head -40; python3 - <<'PY'
+cd /repo/${CRATE:-teos} && (ulimit -v ${MEMKB:-12000000}; env CARGO_HOME=/verif/.cache/cargo-home RUSTFLAGS="--cfg secp256k1_fuzz" timeout $((T*3+300)) cargo kani --lib --target-dir /verif/.cache/${TD:-kani-teos2} -Z stubbing -Z unstable-options -Z async-lib --output-format terse --no-assertion-reach-checks --no-memory-safety-checks -j $J $H --harness-timeout $T --export-json /verif/.cache/out/${OUTTAG:-k1}.json --cbmc-args --unwindset memcmp.0:66 > /verif/.cache/out/${OUTTAG:-k1}.log 2>&1; grep -E "^error" -A8 /verif/.cache/out/${OUTTAG:-k1}.log | head -40; python3 - <<'PY'
 import json
 try:
-    d=json.load(open('/verif/.cache/out/k1.json'))
+    import os
+    d=json.load(open('/verif/.cache/out/%s.json' % os.environ.get('OUTTAG','k1')))
 except Exception as e:
     print('no json', e); raise SystemExit
 st={c['harness_id']:(c.get('cbmc_stats') or {}) for c in d['cbmc']}
